@@ -41,11 +41,15 @@ def generate():
     # ---- removeOldFiles()
     rof = _flat(fn_body(src, 'void removeOldFiles'))
     le0 = bool(re.search(r'if \(m_maxFileCount <= 0\) return;', rof))
-    m = need(re.search(r'while \(rotatedFiles\.size\(\) > m_maxFileCount( - (\d+))?\) \{', rof),
-             'removeOldFiles: while (rotatedFiles.size() > m_maxFileCount - 1)')
-    keep_off = int(m.group(2)) if m.group(1) else 0
-    need(re.search(r'const QString &oldestFile = rotatedFiles\.first\(\);', rof) and
-         re.search(r'QFile::remove\(oldestFile\)', rof) and re.search(r'rotatedFiles\.removeFirst\(\);', rof),
+    m = re.search(r'while \(rotatedFiles\.size\(\) > m_maxFileCount( - (\d+))?\) \{', rof)
+    if m:
+        keep_off = int(m.group(2)) if m.group(1) else 0
+    else:
+        m = need(re.search(r'while \(rotatedFiles\.size\(\) >= m_maxFileCount( \+ (\d+))?\) \{', rof),
+                 'removeOldFiles: while (rotatedFiles.size() > m_maxFileCount - 1)')
+        keep_off = 1 - (int(m.group(2)) if m.group(1) else 0)        # size >= N + k  <=>  size > N - (1 - k)
+    need(re.search(r'const QString &?oldestFile = rotatedFiles\.(first\(\)|constFirst\(\)|front\(\)|at\(0\));', rof) and
+         re.search(r'QFile::remove\(oldestFile\)', rof) and re.search(r'rotatedFiles\.(removeFirst\(\)|removeAt\(0\)|pop_front\(\));', rof),
          'removeOldFiles: removes rotatedFiles.first()')
     need(re.search(r'auto rotatedFiles = findRotatedFiles\(\);', rof), 'removeOldFiles: candidates from findRotatedFiles()')
 
